@@ -38,7 +38,11 @@ Enc(ss, pt) == IF HasKey(ss) THEN [t |-> "enc", ck |-> ss.ck, h |-> ss.h, pt |->
 CanDec(ss, ct) == IF HasKey(ss) THEN ct.t = "enc" /\ ct.ck = ss.ck /\ ct.h = ss.h ELSE TRUE
 Dec(ss, ct) == IF HasKey(ss) THEN ct.pt ELSE ct
 
-\* ---- scenario: [peer, impl, trole, pv, mitm: [msg, move, field], dialed, chunk]
+\* ---- scenario: [peer, impl, trole, pv, mitm: [msg, move, field], dialed, dialedForm, chunk]
+\* A peer id is a multihash of the protobuf-encoded identity key: `dialed` names the key the dialer
+\* expects ("none": no expectation, as on the listener side), `dialedForm` the multihash form of
+\* that expectation: "inline" (identity code, the only form an Ed25519 key ever proves) or
+\* "sha256" (SHA-256 of the encoded key; a different peer id, even for the very same key).
 \* endpoints: "d" (dialer / initiator), "l" (listener / responder)
 Kind(sc, side) ==
   IF sc.peer = "rogue" /\ ((side = "d" /\ sc.trole = "listener") \/ (side = "l" /\ sc.trole = "dialer"))
@@ -128,7 +132,8 @@ Verify(sc, side, ep) ==
   ELSE IF p.sig.t # "sig" THEN Fail(ep)                                  \* BadSignature (missing / garbage)
   ELSE IF ~(p.sig.by = p.key.n /\ p.sig.over = <<"prefix", ep.rs>>) THEN Fail(ep)
   ELSE LET peer == p.key.n IN
-       IF side = "d" /\ sc.dialed # "none" /\ sc.dialed # peer THEN Fail(ep)   \* PeerIdMismatch
+       \* negotiate_connection: `dialed_peer != peer` on the multihash; the proven id is always inline
+       IF side = "d" /\ sc.dialed # "none" /\ (sc.dialed # peer \/ sc.dialedForm # "inline") THEN Fail(ep)   \* PeerIdMismatch
        ELSE [ep EXCEPT !.st = "ok", !.peer = peer]
 
 \* the man in the middle: one move on message k
@@ -155,7 +160,8 @@ PeerIdentity(sc, role) == IF role = "dialer" THEN IdOf(sc, "l") ELSE IdOf(sc, "d
 MustErr(sc, role) ==
   \/ sc.mitm.msg # 0 /\ ~(role = "dialer" /\ sc.mitm.msg = 3)   \* the dialer is done before m3 travels
   \/ sc.peer = "rogue" /\ sc.pv \notin {"asR", "extraField", "noncanonKey"}
-  \/ role = "dialer" /\ sc.dialed # "none" /\ sc.dialed # PeerIdentity(sc, role)
+  \* the dialed peer id differs from the proven one: another key, or another multihash form
+  \/ role = "dialer" /\ sc.dialed # "none" /\ (sc.dialed # PeerIdentity(sc, role) \/ sc.dialedForm # "inline")
 
 \* outcomes C01 permits: [o |-> "ok", peer |-> P] or [o |-> "err"]
 Allowed(sc, role) ==
